@@ -38,15 +38,19 @@ def build_ws(ctx, name, members, message_format_json=False, check_only=False, ke
     return r.returncode, r.stdout, r.stderr
 
 
-def run_member(ctx, name, member, timeout=600):
+def run_member(ctx, name, member, timeout=180):
     exe = os.path.join(ctx["target"], "gen", name, "debug", member)
+    timed_out = False
     try:
-        r = subprocess.run([exe], stdout=subprocess.PIPE, stderr=subprocess.DEVNULL, text=True, timeout=timeout, errors="replace")
-    except subprocess.TimeoutExpired:
-        return None
-    mods = {}
+        r = subprocess.run([exe], stdout=subprocess.PIPE, stderr=subprocess.DEVNULL, timeout=timeout)
+        stdout = r.stdout.decode(errors="replace")
+    except subprocess.TimeoutExpired as e:
+        # wall-clock: inconclusive for the module that was running; what finished before is still judged
+        stdout = (e.stdout or b"").decode(errors="replace")
+        timed_out = True
+    mods = {"__timed_out__": timed_out} if timed_out else {}
     cur = None
-    for line in r.stdout.split("\n"):
+    for line in stdout.split("\n"):
         if line.startswith("@MODULE "):
             cur = line.split()[1]
             mods[cur] = {"lines": [], "ended": False}
